@@ -6,6 +6,7 @@
    source accumulates 0/1 floats where the model counts in Z). *)
 From Coq Require Import List ZArith Bool Reals Lra Lia.
 From UV Require Import Num PyPrim PyPrimLemmas M_metrics T_link T_metrics_bin.
+From UV Require FNum.
 From UVS Require Import Src_distances.
 Import ListNotations.
 
@@ -315,3 +316,86 @@ Proof.
   replace (IZR 2) with (1 + 1) by lra. reflexivity.
 Qed.
 End Reals.
+
+(* ---- symmetric_kl, ll_dirichlet (and its scalar helpers approx_log_Gamma, log_beta, log_single_beta) ---------------------------
+   symmetric_kl: source and model perform the same operations in the same order, except that the source divides by the int
+   literal 2 (of_Z 2) where the model writes 1 + 1: stated over every [Num] in which these coincide (the reals and binary64,
+   see [src_symmetric_kl_eqF]).
+   ll_dirichlet: over R only (the source keeps three accumulators under nested `if`s, the model sums `if c then v else 0`;
+   literals 0.5, 0.125, 0.9, -2.0 are written differently).  `int(a)` is [ntrunc] in the generated text and the [xtrunc] field
+   of the model's [Ext] record: the theorems carry the hypothesis that they agree (by definition for [RExt], [FExt]). *)
+Section GenericKL.
+Context (N : Num) (H2 : of_Z N 2 = add N (one N) (one N)).
+Theorem src_symmetric_kl_eq (x y : list N) (z : N) : length x = length y ->
+  src_symmetric_kl N x y z = d_symmetric_kl N z x y.
+Proof.
+  intros L. unfold src_symmetric_kl, d_symmetric_kl, smooth_normalise, vsum, n2. cbv zeta.
+  loop2 L. cbv beta. rewrite fold_left_pair'.
+  rewrite (fold_left_combine_fst (fun p a => add N p (add N a z)) x y _ L).
+  rewrite (fold_left_combine_snd (fun p a => add N p (add N a z)) x y _ L).
+  rewrite !fold_left_map.
+  set (sx := fold_left _ x (zero N)). set (sy := fold_left _ y (zero N)).
+  loop2 L. cbv beta. rewrite fold_left_pair'. rewrite H2.
+  rewrite !fold_left_zipw, !map_map. rewrite !combine_map_l', !combine_map_r', !fold_left_map. reflexivity.
+Qed.
+End GenericKL.
+Theorem src_symmetric_kl_eqR (x y : list R) (z : R) : length x = length y -> src_symmetric_kl RNum x y z = d_symmetric_kl RNum z x y.
+Proof. apply (src_symmetric_kl_eq RNum). cbn. lra. Qed.
+Theorem src_symmetric_kl_eqF (x y : list (T FNum.FNum)) (z : T FNum.FNum) :
+  length x = length y -> src_symmetric_kl FNum.FNum x y z = d_symmetric_kl FNum.FNum z x y.
+Proof. apply (src_symmetric_kl_eq FNum.FNum). vm_compute. reflexivity. Qed.
+
+Section RealsLLD.
+Local Open Scope R_scope.
+Ltac rn := change (T RNum) with R in *.
+Ltac rops := cbn [add sub mul div neg eqb ltb of_Z zero one nln nsqrt ntrunc RNum RPy ppi] in *; rn.
+Lemma nlit_0125 : nlit RNum 125 (-3) = 1 / 8. Proof. unfold nlit. cbn. lra. Qed.
+Lemma nlit_09 : nlit RNum 9 (-1) = 9 / 10. Proof. unfold nlit. cbn. lra. Qed.
+Lemma nlit_12 : nlit RNum 12 0 = 12. Proof. unfold nlit. cbn. lra. Qed.
+
+Theorem src_approx_log_Gamma_eq (E : Ext RNum) (x : R) :
+  src_approx_log_Gamma RNum (RPy E) x = approx_log_gamma RNum E x.
+Proof.
+  unfold src_approx_log_Gamma, approx_log_gamma, nhalf, n2, c12, nZ. rewrite nlit_2, nlit_half, nlit_12. rops.
+  destruct (Reqb x 1); [reflexivity|].
+  replace (1 / (1 + 1)) with (/ 2) by lra. replace (1 + 1) with 2 by lra. reflexivity.
+Qed.
+
+Theorem src_log_single_beta_eq (E : Ext RNum) (x : R) :
+  src_log_single_beta RNum (RPy E) x = log_single_beta RNum E x.
+Proof.
+  unfold src_log_single_beta, log_single_beta, nhalf, n2, c0125, nZ. rewrite nlit_2, nlit_half, nlit_0125. rops.
+  replace (1 / (1 + 1)) with (/ 2) by lra. replace (1 + 1) with 2 by lra.
+  replace (- (2) * x) with (- (2 * x)) by lra. reflexivity.
+Qed.
+
+Theorem src_log_beta_eq (E : Ext RNum) (Htr : forall a, xtrunc RNum E a = ntrunc RNum a) (x y : R) :
+  src_log_beta RNum (RPy E) x y = log_beta RNum E x y.
+Proof.
+  unfold src_log_beta, log_beta, c5, nZ, PyPrim.nmin, PyPrim.nmax. cbv zeta.
+  rewrite !src_approx_log_Gamma_eq, Htr.
+  destruct (ltb RNum _ (of_Z RNum 5)); [|reflexivity].
+  unfold for_range.
+  replace (Z.to_nat (ntrunc RNum (if ltb RNum y x then y else x) - 1)) with (Z.to_nat (ntrunc RNum (if ltb RNum y x then y else x)) - 1)%nat by lia.
+  rewrite <- seq_shift, fold_left_map. apply fold_left_ext. intros s k.
+  replace (1 + Z.of_nat k)%Z with (Z.of_nat (Datatypes.S k)) by lia. reflexivity.
+Qed.
+
+Theorem src_ll_dirichlet_eq (E : Ext RNum) (Htr : forall a, xtrunc RNum E a = ntrunc RNum a) (x y : list R) :
+  length x = length y -> src_ll_dirichlet RNum (RPy E) x y = d_ll_dirichlet RNum E x y.
+Proof.
+  intros L. unfold src_ll_dirichlet, d_ll_dirichlet, lld_core, clamp0, PyPrim.nmax, vsum_py, vsum. cbv zeta.
+  loop2 L. cbv beta.
+  rewrite (fold_left_ext _ (fun (s : R * R * R) (ab : R * R) => let '(p, q, r) := s in
+     (p + (if Rltb (c09 RNum) (fst ab * snd ab) then log_beta RNum E (fst ab) (snd ab) else 0),
+      q + (if Rltb (c09 RNum) (fst ab * snd ab) || Rltb (c09 RNum) (fst ab) then log_single_beta RNum E (fst ab) else 0),
+      r + (if Rltb (c09 RNum) (fst ab * snd ab) || Rltb (c09 RNum) (snd ab) then log_single_beta RNum E (snd ab) else 0)))).
+  2:{ intros [[p q] r] [a b]. cbn [fst snd]. unfold ngt. rewrite nlit_09.
+      rewrite !src_log_single_beta_eq, (src_log_beta_eq E Htr).
+      replace (c09 RNum) with (9 / 10) by (unfold c09, nZ; reflexivity). rops.
+      destruct (Rltb (9 / 10) (a * b)); cbn [orb]; [reflexivity|].
+      destruct (Rltb (9 / 10) a); destruct (Rltb (9 / 10) b); repeat f_equal; lra. }
+  rewrite (fold_left_triple' (fun p ab => p + _) (fun q ab => q + _) (fun r ab => r + _)).
+  rewrite !fold_left_zipw. rewrite !src_log_single_beta_eq, !(src_log_beta_eq E Htr). reflexivity.
+Qed.
+End RealsLLD.
